@@ -71,6 +71,22 @@ Lemma step_inv c h e now d h' out :
   h' = hs (dispatch c (tick c h now d) e now) /\ out = outs (dispatch c (tick c h now d) e now).
 Proof. rewrite step_eq. intros H. inversion H. split; reflexivity. Qed.
 
+Lemma step_PHs c h from src n aad sg eph eph_ok rec ct now d :
+  step c h (EvInbound from (PHs src n aad sg eph eph_ok rec ct)) now d =
+  (hs (handle_auth_message c (tick c h now d) (src, from) n aad sg eph eph_ok rec ct now),
+   outs (handle_auth_message c (tick c h now d) (src, from) n aad sg eph eph_ok rec ct now)).
+Proof. unfold step, tick. reflexivity. Qed.
+Lemma step_PMsg c h from src n aad ct now d :
+  step c h (EvInbound from (PMsg src n aad ct)) now d =
+  (hs (handle_message c (tick c h now d) (src, from) n aad ct now),
+   outs (handle_message c (tick c h now d) (src, from) n aad ct now)).
+Proof. unfold step, tick. reflexivity. Qed.
+Lemma step_PWho c h from n idn seq cd now d :
+  step c h (EvInbound from (PWho n idn seq cd)) now d =
+  (hs (handle_challenge c (tick c h now d) from n seq cd now),
+   outs (handle_challenge c (tick c h now d) from n seq cd now)).
+Proof. unfold step, tick. reflexivity. Qed.
+
 Lemma outs_after (P : output -> Prop) s0 s' o :
   Forall quiet_out (outs s0) -> OutsExt P s0 s' -> In o (outs s') -> quiet_out o \/ P o.
 Proof.
@@ -244,8 +260,8 @@ Theorem incoming_identity c h from src n aad sg eph eph_ok rec ct now d h' out :
     In ((src, from), ch, deadline) (challenges h) /\
     sg = Sig src (ch_cd ch) eph (cfg_local c) /\ eph_ok = true.
 Proof.
-  intros Hfix Hok Hstep. apply step_inv in Hstep. destruct Hstep as [Eh Eo].
-  eapply incoming_identity_gen; [apply (tick_after c h now d) | exact Hfix | exact Hok | exact Eh | exact Eo].
+  intros Hfix Hok Hstep. rewrite step_PHs in Hstep. inversion Hstep as [[Eh Eo]].
+  eapply incoming_identity_gen; [apply (tick_after c h now d) | exact Hfix | exact Hok | reflexivity | reflexivity].
 Qed.
 
 (* Established(Incoming) is reported with a record of the claimed id: the record verified is X's *)
@@ -307,8 +323,8 @@ Theorem incoming_established_id c h from src n aad sg eph eph_ok rec ct now d h'
   a = from /\ (In (OEvent (HUnverifiable e a nid)) out -> nid = src) /\
   (In (OEvent (HEstablished e a true)) out -> e_id e = src).
 Proof.
-  intros Hfix Hok Hstep. apply step_inv in Hstep. destruct Hstep as [_ Eo].
-  eapply incoming_established_id_gen; [apply (tick_after c h now d) | exact Hfix | exact Hok | exact Eo].
+  intros Hfix Hok Hstep. rewrite step_PHs in Hstep. inversion Hstep as [[Eh Eo]].
+  eapply incoming_established_id_gen; [apply (tick_after c h now d) | exact Hfix | exact Hok | reflexivity].
 Qed.
 
 (* every event other than an inbound WHOAREYOU / handshake packet: no session is created or re-keyed,
@@ -357,9 +373,9 @@ Theorem delivered_needs_session c h from src n aad ct now d h' out o :
   step c h (EvInbound from (PMsg src n aad ct)) now d = (h', out) -> In o out ->
   quiet_out o \/ msg_out_ok (hs (tick c h now d)) (src, from) n aad ct o.
 Proof.
-  intros Hstep Hin. apply step_inv in Hstep. destruct Hstep as [_ Eo].
+  intros Hstep Hin. rewrite step_PMsg in Hstep. inversion Hstep as [[Eh Eo]].
   pose proof (handle_message_frame c (tick c h now d) (src, from) n aad ct now) as [_ HO].
-  rewrite Eo in Hin. exact (outs_after _ _ _ o (tick_outs c h now d) HO Hin).
+  rewrite <- Eo in Hin. exact (outs_after _ _ _ o (tick_outs c h now d) HO Hin).
 Qed.
 
 Corollary request_delivered c h from src n aad ct now d h' out na rid body :
